@@ -72,9 +72,15 @@ func Arr(el ...N) N             { return N{"k": "arr", "el": list(el...)} }
 func Obj(kv ...any) N { // key string, value N pairs
 	pr := []N{}
 	for i := 0; i+1 < len(kv); i += 2 {
-		pr = append(pr, N{"key": units(kv[i].(string)), "val": kv[i+1].(N)})
+		pr = append(pr, N{"key": units(kv[i].(string)), "val": kv[i+1].(N), "kind": "init"})
 	}
 	return N{"k": "obj", "pr": pr}
+}
+
+// WithAccessor adds a getter or setter (kind "get" / "set", fn a function expression) to an object literal.
+func WithAccessor(obj N, kind, key string, fn N) N {
+	obj["pr"] = append(asNodes(obj["pr"]), N{"key": units(key), "val": fn, "kind": kind})
+	return obj
 }
 func Fn(name string, params []string, body ...N) N {
 	ps := [][]int{}
@@ -212,6 +218,15 @@ func RenderExpr(n N) string {
 	case "obj":
 		var ps []string
 		for _, p := range asNodes(n["pr"]) {
+			if k := p["kind"].(string); k == "get" || k == "set" {
+				fn := p["val"].(N)
+				var params []string
+				for _, q := range fn["params"].([][]int) {
+					params = append(params, str(q))
+				}
+				ps = append(ps, k+" "+jsStr(p["key"].([]int))+"("+strings.Join(params, ", ")+") {\n"+RenderProgram(asNodes(fn["body"]))+"}")
+				continue
+			}
 			ps = append(ps, jsStr(p["key"].([]int))+": "+RenderExpr(p["val"].(N)))
 		}
 		return "({" + strings.Join(ps, ", ") + "})"
